@@ -391,7 +391,9 @@ func (r *run) body(evs []Ev) {
 			}
 		})
 	}
-	watch := time.AfterFunc(20*time.Second, func() {
+	// (wall clock, generous: a run takes milliseconds, but under a heavily loaded machine every hand-over
+	// can wait for a time slice; the supervisor reports this panic as harness trouble, never as a verdict)
+	watch := time.AfterFunc(90*time.Second, func() {
 		buf := make([]byte, 1<<18)
 		n := runtime.Stack(buf, true)
 		fmt.Fprintf(os.Stderr, "engine C watchdog: goroutines:\n%s\n", buf[:n])
@@ -533,7 +535,7 @@ func (r *run) finalSync(client orda.Client) bool {
 			r.fail("C20.queued-once-in-order", "final-sync", "final Sync failed: %v", err)
 			return false
 		}
-	case <-time.After(10 * time.Second):
+	case <-time.After(30 * time.Second):
 		// nobody else is running any more: whatever Sync() waits for will never be released
 		r.fail("C20.no-deadlock", "sync-never-returns", "after all goroutines finished, Sync() does not return: it waits for something that nobody holds any more (a lock or the delivery semaphore was not released)")
 		return false
